@@ -12,8 +12,14 @@ LEVEL_TEXT = ("Proof + correspondence (PARTIAL): Coq model of parseAnchorName (m
               "| mark, mark) pair the attachment offset is base anchor minus mark anchor (each quantised then rounded) of one of "
               "the anchor classes the two glyphs share, and no attachment when they share none -- is an executable Coq predicate "
               "(spec_C06) evaluated with vm_compute on what an independent MarkBase/MarkLig/MarkMark interpreter reads from "
-              "compiled fonts, for all glyph pairs, both grouping modes. The writer's class/lookup construction itself is not "
-              "transcribed into Coq; contextual ('*') anchors are excluded.")
+              "compiled fonts, for all glyph pairs, both grouping modes. The writer's mark-class construction "
+              "(_makeMarkClassDefinitions / _defineMarkClass with its unique-name search) is transcribed (Mark/MarkClasses.v) and "
+              "proved: for any classes the feature file already defines and any non-repeating naming scheme, all marks of an "
+              "anchor are, each with its own anchor, in the one class recorded for that anchor (C06_marks_of_an_anchor_share_the_"
+              "recorded_class; the pre-repair code F20 is refuted); compared exactly with the mark classes and class references "
+              "of the compiled feature file for feature files that pre-define @MC_<anchor>, @MC_<anchor>_1, other classes, with "
+              "current and stale anchors. The mark-class grouping is Mark/Color.v. Lookup assembly is not transcribed; contextual "
+              "('*') anchors are excluded.")
 LEVEL_NOTE = ("Trusted: Coq kernel, hand models, harness, our GPOS interpreter (last applicable lookup wins, lookup flags and mark "
               "filtering sets honoured), feaLib/otlLib compilation. When GDEF categories exclude a glyph the check accepts both "
               "attachment and none.")
@@ -183,7 +189,98 @@ def color_graph_section(ctx):
             ctx.corr_mismatch(case, "Gallina color_graph differs from markFeatureWriter.colorGraph")
 
 
+def mark_class_section(ctx):
+    """_makeMarkClassDefinitions against Mark/MarkClasses.v: feature files that already define mark classes -- under the
+    name the writer generates (@MC_top), under its first fallback (@MC_top_1), under other names -- holding some of the
+    font's marks with their current or with stale anchors.  Observed on the compiled feature source: the final mark
+    classes and the class each generated `pos base` statement references."""
+    import ufo2ft
+    from fontTools.feaLib.parser import Parser
+    from fontTools.feaLib import ast as fa
+    rng = ctx.subrng("mark-classes")
+    MARKS = ["m1", "m2", "m3", "m4"]
+    cases, meta = [], []
+    for i in range(ctx.budget(60, 400)):
+        nm = rng.randint(1, 4)
+        marks = MARKS[:nm]
+        ufo_anchor = {m: {"top": (rng.randint(-5, 5) * 10, 480 + rng.randint(0, 4) * 5)} for m in marks}
+        two = i % 3 == 0
+        if two:
+            for m in marks[::2]:
+                ufo_anchor[m]["bottom"] = (rng.randint(-3, 3) * 10, -20 - rng.randint(0, 3) * 5)
+        glyphs = [{"name": "b", "unicodes": [0x62], "width": 500, "contours": [], "components": [],
+                   "anchors": [("top", Fr(250), Fr(600)), ("bottom", Fr(250), Fr(0))]}]
+        for k, m in enumerate(marks):
+            glyphs.append({"name": m, "unicodes": [0x300 + k], "width": 0, "contours": [], "components": [],
+                           "anchors": [("_" + an, Fr(x), Fr(y)) for an, (x, y) in ufo_anchor[m].items()]})
+        # user classes
+        user = []
+        for cname in rng.sample(["MC_top", "MC_top_1", "MC_top_2", "MC_bottom", "other"], rng.randint(0, 3)):
+            mem = []
+            for m in rng.sample(marks, rng.randint(1, nm)):
+                an = "bottom" if cname == "MC_bottom" and "bottom" in ufo_anchor[m] else "top"
+                x, y = ufo_anchor[m][an]
+                if rng.random() < 0.5:
+                    x, y = x + 100, y - 37                 # a stale definition
+                mem.append((m, (x, y)))
+            user.append((cname, mem))
+        fea = "languagesystem DFLT dflt;\n" + "".join("markClass %s <anchor %d %d> @%s;\n" % (m, x, y, c) for c, mem in user for m, (x, y) in mem)
+        desc = {"glyphs": glyphs, "features": fea, "glyphOrder": ["b"] + marks,
+                "lib": {"public.openTypeCategories": dict({"b": "base"}, **{m: "mark" for m in marks})}}
+        case = {"features": fea, "ufo_mark_anchors": ufo_anchor, "lib": ["ufoLib2", "defcon"][i % 2]}
+        ctx.count(); ctx.klass("mark classes: %d user classes%s" % (len(user), ", MC_top taken" if any(c == "MC_top" for c, _ in user) else ""))
+        if user:
+            ctx.nontriv(("mc", i, ctx.scale))
+        try:
+            dbg = io.StringIO()
+            ufo2ft.compileTTF(build_font(desc, case["lib"]), useProductionNames=False, debugFeatureFile=dbg)
+            final = Parser(io.StringIO(dbg.getvalue()), glyphNames=["b"] + marks).parse()
+        except Exception as e:
+            ctx.spec_failure(case, "compile raised %s: %s\n%s" % (type(e).__name__, e, traceback.format_exc()[-1000:]))
+            continue
+        obs_classes = []
+        for name, mc in final.markClasses.items():
+            mem = []
+            for d in mc.definitions:
+                for g in d.glyphs.glyphSet():
+                    mem.append((g, (int(d.anchor.x), int(d.anchor.y))))
+            obs_classes.append((name, mem))
+        used = {}
+        def walk(st):
+            for x in getattr(st, "statements", []):
+                if isinstance(x, fa.MarkBasePosStatement):
+                    for anchor, mc in x.marks:
+                        used[(int(anchor.x), int(anchor.y))] = mc.name
+                walk(x)
+        walk(final)
+        obs_used = [used.get((250, 0)), used.get((250, 600))]           # class referenced for bottom, for top
+        gm = lambda mem: G.lst([G.tup(G.s(g), G.tup(G.z(x), G.z(y))) for g, (x, y) in mem], "(str * xy)")
+        gc = lambda cl: G.lst([G.tup(G.s(n), gm(mem)) for n, mem in cl], "(str * members)")
+        anchors = []
+        for an in ["bottom", "top"]:
+            mem = [(m, ufo_anchor[m][an]) for m in marks if an in ufo_anchor[m]]
+            if mem:
+                anchors.append((an, mem))
+        cases.append(G.tup(G.lst([G.tup(G.s("MC_" + an), gm(mem)) for an, mem in anchors], "(str * members)"), gc(user), gc(obs_classes),
+                           G.lst([G.opt(G.s(obs_used[["bottom", "top"].index(an)]) if obs_used[["bottom", "top"].index(an)] else None, "str")
+                                  for an, _ in anchors], "(option str)")))
+        meta.append(dict(case, final_mark_classes=obs_classes, class_used_for_bottom_top=obs_used))
+    vals = ctx.coq_eval("From U2F Require Import Base.Prelude Mark.MarkClasses.",
+                        "fun c : (list (str * members) * classes * classes * list (option str)) => let '(anchors, cls, obs, used) := c in "
+                        "let r := process_all cand_dec anchors cls in "
+                        "(if classes_same (fst r) obs && list_eqb (option_eqb str_eqb) (map Some (snd r)) used then 1 else 0) + "
+                        "(if spec_all anchors obs used then 2 else 0)", cases, chunk=60, tag="MarkClasses")
+    for v, case in zip(vals, meta):
+        if v is None:
+            continue
+        if not v & 2:
+            ctx.spec_failure(case, "a mark is not, with its own UFO anchor, in the mark class the generated `pos base` statement references for its anchor")
+        elif not v & 1:
+            ctx.corr_mismatch(case, "Gallina process_all (Mark/MarkClasses.v) differs from the compiled feature file's mark classes / class references")
+
+
 def explore(ctx):
+    mark_class_section(ctx)
     color_graph_section(ctx)
     import ufo2ft
     from fontTools.ttLib import TTFont
